@@ -94,8 +94,12 @@ func runClassifiers(c *Ctx) {
 	if c.Tier == "thorough" {
 		depth = 4
 	}
-	for _, p := range prefixes {
-		rec(p, depth)
+	for i, p := range prefixes {
+		if i < 3 {
+			rec(p, depth) // MOVED / ASK / REDIRECT get the deep sweep
+		} else {
+			rec(p, 3)
+		}
 	}
 	// oracle: texts of the documented form MOVED <slot> <addr> / ASK <slot> <addr> / REDIRECT <addr>
 	for _, a := range addrs {
